@@ -53,6 +53,7 @@ func isBuiltin(c ssa.CallInstruction, name string) bool {
 }
 
 func c03(c *eng.Ctx) {
+	defer c03Extra(c)
 	c.Rule("R1", "every endpoint returned by an EndpointPicker.Pop is an element appended to the ready slice under `loaded && IsReady()`, loaded from the cluster's Endpoints map by a name ranging over the picker's upstreams; an empty result returns ErrNoReadyEndpoints", 4)
 	c.Rule("R2", "endpointStatus.IsReady is false whenever Disabled is true or Healthy is false (forcing), true when enabled and healthy, and reads both under the status mutex; EndpointInfo.IsReady delegates to it", 5)
 	c.Rule("R3", "MatchAttributes gives the picker policy.UpstreamSubset when non-empty and all endpoints of the cluster otherwise; the policy is the result of MatchPolicies", 3)
@@ -204,8 +205,8 @@ func c03(c *eng.Ctx) {
 			for _, f := range []string{"Disabled", "Healthy"} {
 				if eng.FieldAddrOf(u.X, tEndpointStatus, f) {
 					held := eng.AlwaysBefore(isReady, ins, isLock) && eng.ReachFromEntry(isReady, eng.PathQuery{
-						Target: func(i ssa.Instruction) bool { return i == ins },
-						Avoid:  func(i ssa.Instruction) bool { return false },
+						Target:    func(i ssa.Instruction) bool { return i == ins },
+						Avoid:     func(i ssa.Instruction) bool { return false },
 						BlockEdge: nil,
 					}) != nil
 					// no unlock between lock and read
